@@ -92,4 +92,10 @@ example : view (runEx Miros.Gen.aoTags [[.timed .fifo 5 3 2 true, .timed .lifo 6
 example : tview (runEx Miros.Gen.aoTags [[.timed .fifo 5 3 2 true, .timed .lifo 6 1 0 false]] 1
     [300, 300, 200, 1000, 200, 200, 200, 200]) = [(true, .p, [3])] := by decide
 
+/-- tie of the model's single `maxTimers` to the source: every creation of `posted_events_queue` bounds the deque by the very
+expression the capacity test of a timed post compares its length with (so a subclass that raises `QUEUE_SIZE` can really track that
+many sources; with two different bounds the deque would silently drop the oldest tracked source while its thread keeps running).
+Fails to build when the translator finds different expressions. -/
+theorem tracked_capacity_is_test_capacity : Miros.Gen.aoTrackedCapIsTestCap = true := by decide
+
 end Miros.Props.C31
